@@ -432,6 +432,7 @@ def run(rep: Report, tier: str) -> None:
 	rule_quote_escape(rep, tz)
 	rule_indent_state(rep, tz, tk)
 	rule_context_fresh(rep, tz)
+	rule_lexer_state(rep, idx)
 	rule_source_map(rep, tk)
 
 	# domain order
@@ -580,3 +581,25 @@ def rule_context_fresh(rep: Report, tz) -> None:
 				r.check(fresh, key, where, f'Tokenizer.{name} hands `{a.id}` to {c_.func.attr}, bound by {[unparse(d_)[:60] for d_ in defs_]}: not a Context constructed inside this call', unparse(c_)[:100])
 	if n_sites == 0:
 		r.skip('context-sites', tcls.where, 'no Tokenizer method passes a Context to a handler')
+
+
+def rule_lexer_state(rep: Report, idx) -> None:
+	"""tokens(s) is a function of s: one Tokenizer / Lexer serves every module of a run, so anything it remembers between sources (a memo of quote pairs
+	keyed by the first two characters, a cached indent unit) answers for the next source. The inventory of remembered state is C04's; the entries of the
+	lexer classes are obligations here as well (as they are for C11)."""
+	from checks import c04
+	r = rep.rule('C13/lexer-keeps-no-state', 'Lexer, Tokenizer and the token definitions hold no container / memo besides their constant dispatch tables (shared with C04/instance-state-inventory)', floor=1)
+	scratch = Report('C04', rep.tier)
+	c04.rule_g(scratch, idx)
+	n_ = 0
+	for rule in scratch.rules:
+		for o in rule.obligations:
+			if not o.key.startswith(('Lexer.', 'Tokenizer.', 'PyTokenizer.', 'TokenDefinition.', 'Context.')):
+				continue
+			n_ += 1
+			if o.status == 'violated':
+				r.violate(o.key, (o.file, o.line), o.message, o.fragment)
+			else:
+				r.ok(o.key, (o.file, o.line))
+	if n_ == 0:
+		r.ok('no-container-attributes', None, message='the lexer classes hold no container attribute')
